@@ -196,7 +196,7 @@ def decorate(schema):
         o.desc = "D%d %s" % (n, getattr(o, "name", ""))
         o.since = n % 4
         if n % 3 == 0:
-            o.deprecated = 4
+            o.deprecated = (0, 4, 1)[(n // 3) % 3]      # 0 is a stated value, not "absent"
         if sem and hasattr(o, "sem"):
             o.sem = "Sem%d" % n
 
@@ -204,14 +204,17 @@ def decorate(schema):
         if isinstance(t, ir.Ref):
             n = nxt()
             t.since = n % 4
+            if n % 2 == 0:
+                t.deprecated = (0, 3)[(n // 2) % 2]     # a ref states its own value, whatever the referenced type says
             return
         deco(t, sem=True)
         if isinstance(t, ir.T) and t.prim == "char":
             t.char_enc = "ISO_8859_1"
         if isinstance(t, ir.Enum):
-            t.values = [(v[0], v[1], {"description": "V%d" % nxt(), "sinceVersion": k[0] % 4}) for v in t.values]
+            t.values = [(v[0], v[1], dict({"description": "V%d" % nxt(), "sinceVersion": k[0] % 4}, **({"deprecated": (0, 5)[k[0] % 2]} if k[0] % 3 else {})))
+                        for v in t.values]
         if isinstance(t, ir.SetT):
-            t.choices = [(c[0], c[1], {"description": "C%d" % nxt(), "sinceVersion": k[0] % 4, "deprecated": 4}) for c in t.choices]
+            t.choices = [(c[0], c[1], {"description": "C%d" % nxt(), "sinceVersion": k[0] % 4, "deprecated": (4, 0)[k[0] % 2]}) for c in t.choices]
         if isinstance(t, ir.Comp):
             for m in t.members:
                 deco_type(m)
